@@ -474,6 +474,12 @@ func (p *exprPrinter) printLineDir(e ast.Expr) string {
 		return ""
 	}
 	pos := p.g.posInfo(e)
+	if pos.Column == 0 {
+		// The source has a "//line file:N" directive of its own, which
+		// leaves the column unknown; a column of 0 is not valid in a line
+		// directive.
+		return fmt.Sprintf("/*line %v:%d*/", filepath.Base(pos.File), pos.Line)
+	}
 	return fmt.Sprintf("/*line %v:%d:%d*/", filepath.Base(pos.File), pos.Line, pos.Column)
 }
 
